@@ -40,7 +40,7 @@ type c19World struct {
 	S    edwards25519.Scalar
 	E    field.Element
 	praw [2]alpha.RawPoint
-	sraw [4]uint64
+	sraw alpha.RawScalar
 	eraw Limbs
 	H    []*c19Handle
 }
@@ -446,7 +446,12 @@ func (w *c19World) step(op string) *core.Fail {
 		}
 	}
 	if alpha.ScalarRaw(&w.S) != w.sraw || alpha.LimbsOf(&w.E) != w.eraw {
-		return core.Failf("after %q the source scalar/element changed", op)
+		// representation-only rewrites are C18's business; the values must be intact
+		se, ee := ref.LE32(alpha.GenericScalar), ref.LE32(alpha.FieldValues(true)[13])
+		if !bytes.Equal(w.S.Bytes(), se[:]) || !bytes.Equal(w.E.Bytes(), ee[:]) {
+			return core.Failf("after %q the source scalar/element changed value", op)
+		}
+		w.sraw, w.eraw = alpha.ScalarRaw(&w.S), alpha.LimbsOf(&w.E)
 	}
 	for i, h := range w.H {
 		if h.live {
